@@ -4,9 +4,9 @@
 Require Import List ZArith Arith.
 From Dasp Require Import Base.Res Base.ListX Ring.Bounded Ring.BoundedSpec Ring.BoundedProofs
   Ring.Fixed Ring.FixedSpec Ring.FixedProofs Ring.RingExamples Ring.IndexArith
-  Ring.RingPrim Ring.RingGenGlue Ring.RingGenEquiv Ring.RingGenExamples.
+  Ring.RingPrim Ring.RingGenGlue Ring.RingGenEquiv Ring.RingGenExamples Ring.RingGenCkEquiv.
 From Dasp Require Ring.RingRun Ring.RingRunNorm.
-From DaspGen Require Import RingGen.
+From DaspGen Require Import RingGen RingGenCk.
 Import ListNotations.
 
 (* Every operation, from every valid state over every capacity, returns what the
@@ -203,3 +203,30 @@ Theorem c06_gen_fixed_delay : forall (A : Type) (f : fixed A) (xs : list A), Inv
   exists f', gen_fpushes xs f = Ok (f', firstn (length xs) (fq f ++ xs)) /\ InvF f' /\ flen f' = flen f.
 Proof. exact @gen_fixed_delay. Qed.
 Print Assumptions c06_gen_fixed_delay.
+
+(* The 64-bit reading of the regenerated source: gen/RingGenCk.v is the same translation with every usize `+`, `*`,
+   `+=` panicking when the result reaches the modulus M (read M = 2^64).  In every valid state over storage of at
+   most M/2 elements (Rust: a slice of a non-zero-sized type has at most isize::MAX bytes) it equals the unbounded
+   reading, for EVERY index and element: no addition the source performs on indices can overflow -- so the nat
+   models are exact for all usize arguments, and a build without overflow checks cannot wrap either.  (The methods
+   not listed contain no usize addition: their two readings are the same text.)  The form of Fixed::get before
+   /repo daaa156 does not pass (defect F9). *)
+Theorem c06_gen_no_index_overflow : forall (A : Type) (M : nat),
+  (forall b : bounded A, Inv b -> 2 * max_len b <= M ->
+     (forall x, Bounded_push_ck M b x = Bounded_push b x) /\
+     Bounded_pop_ck M b = Bounded_pop b /\
+     (forall i, Bounded_get_ck M b i = Bounded_get b i) /\
+     (forall i, Bounded_get_mut_ck M b i = Bounded_get_mut b i) /\
+     (forall i, Bounded_index_ck M b i = Bounded_index b i) /\
+     (forall i, Bounded_index_mut_ck M b i = Bounded_index_mut b i) /\
+     DrainBounded_next_ck M b = DrainBounded_next b /\
+     (forall xs, Bounded_extend_ck M b xs = Bounded_extend b xs)) /\
+  (forall f : fixed A, InvF f -> 2 * flen f <= M ->
+     (forall x, Fixed_push_ck M f x = Fixed_push f x) /\
+     (forall i, Fixed_get_ck M f i = Fixed_get f i) /\
+     (forall i, Fixed_get_mut_ck M f i = Fixed_get_mut f i) /\
+     (forall i, Fixed_index_ck M f i = Fixed_index f i) /\
+     (forall i, Fixed_index_mut_ck M f i = Fixed_index_mut f i) /\
+     (forall xs, Fixed_extend_ck M f xs = Fixed_extend f xs)).
+Proof. exact gen_no_index_overflow. Qed.
+Print Assumptions c06_gen_no_index_overflow.
